@@ -181,6 +181,7 @@ Definition wb_read (rf : rfun) : Prop :=
 Definition op_ok (o : op) : Prop :=
   match o with
   | OWrite _ arg _ _ _ ib ia => arg_wf arg = true /\ wb_before ib /\ wb_after ia
+  | OWriteF _ arg _ mf _ ib ia => arg_wf arg = true /\ wb_merge mf /\ wb_before ib /\ wb_after ia
   | OPull _ _ h => wb_hook h
   | ORead rf => wb_read rf
   | _ => True
@@ -230,9 +231,10 @@ Proof.
   { intros s' G id t Hin. eapply libtag_mono; [eapply Hst; eauto|]. apply G. }
   assert (Hnop : frame lo (hs st) (hs st) /\ inv st /\ new_snaps_ok st st).
   { split; [apply good_frame; apply good_refl; auto|]. split; [split; auto|]. exists []. split; [rewrite app_nil_r; auto | constructor]. }
-  destruct o as [id arg vis um m ib ia|id|id rm|rm|rm uo hook|k|rf]; simpl.
-  - (* write *)
-    destruct Hop as (Hwf & Hib & Hia).
+  assert (Hwrite : forall id arg vis mf m ib ia, arg_wf arg = true -> wb_merge mf -> wb_before ib -> wb_after ia ->
+             frame lo (hs st) (hs (write_step n st id arg vis mf m ib ia)) /\ inv (write_step n st id arg vis mf m ib ia) /\
+             new_snaps_ok st (write_step n st id arg vis mf m ib ia)).
+  { intros id arg vis mf m ib ia Hwf Hmf Hib Hia. unfold write_step.
     destruct (alloc_arg_good lo (hs st) arg Hh Hwf) as (G1 & Qa & Ea).
     destruct (alloc_arg (hs st) arg) as [s1 a] eqn:E1. simpl in G1, Qa, Ea.
     assert (Harg : Forall (fun t => snd t < nxt s1 /\ (fst t = Lib \/ t = (Caller, lo))) (if vis then [a] else [])).
@@ -261,11 +263,11 @@ Proof.
         eapply own_mono; [apply Qa | lia]. }
       set (s4 := ib s3 old a) in *.
       assert (N4 : nxt s3 <= nxt s4) by apply G4.
-      assert (G5 : good lo s4 (upd_merge n s4 dst a um)).
-      { apply upd_merge_good; [apply (good_ok _ _ _ G4) | |].
-        - destruct Qd as (Hd & ? & ?). rewrite Hd. split; auto. split; [lia | auto].
+      assert (G5 : good lo s4 (mf s4 dst a)).
+      { apply Hmf; [apply (good_ok _ _ _ G4) | |].
+        - destruct Qd as (Hd & ? & ?). split; auto. split; [lia | auto].
         - eapply own_mono; [apply Qa | lia]. }
-      set (s5 := upd_merge n s4 dst a um) in *.
+      set (s5 := mf s4 dst a) in *.
       assert (N5 : nxt s4 <= nxt s5) by apply G5.
       assert (G6 : good lo s5 (ia s5 old dst)).
       { apply Hia; [apply (good_ok _ _ _ G5) | destruct Qold; lia | apply Qold |].
@@ -289,7 +291,10 @@ Proof.
       * apply Forall_app. split.
         -- eapply Forall_impl; [|apply Harg]. intros x [A B]. split; auto. lia.
         -- constructor; [split; [destruct Ldst; lia | left; apply Ldst]|].
-           eapply Forall_impl; [|apply Q7]. intros x [A B]. split; auto.
+           eapply Forall_impl; [|apply Q7]. intros x [A B]. split; auto. }
+  destruct o as [id arg vis um m ib ia|id|id rm|rm|rm uo hook|k|rf|id arg vis mf m ib ia]; simpl.
+  - (* write *)
+    destruct Hop as (Hwf & Hib & Hia). apply Hwrite; auto. apply wb_merge_upd.
   - (* delete *)
     destruct (fget id (store st)) as [t|] eqn:Ef.
     + assert (Lt : libtag (nxt (hs st)) t) by (eapply Hst; eapply In_fget; eauto).
@@ -355,6 +360,8 @@ Proof.
         -- specialize (Hsn t Ht). destruct H2 as [? _]. lia.
         -- rewrite Forall_forall in H3. apply (H3 t Ht).
     + exists rs. split; auto. eapply Forall_impl; [|apply H3]. intros a [A _]. left; exact A.
+  - (* write with any well-behaved merge step *)
+    destruct Hop as (Hwf & Hmf & Hib & Hia). apply Hwrite; auto.
 Qed.
 
 (* ---------- whole histories ---------- *)
@@ -385,16 +392,20 @@ Proof.
   induction ops as [|o ops IH]; intros st; simpl; [exists []; rewrite app_nil_r; auto|].
   destruct (IH (step n st o)) as [l Hl].
   assert (exists l0, snaps (step n st o) = snaps st ++ l0) as [l0 H0].
-  { destruct o; simpl.
-    - destruct (alloc_arg (hs st) arg) as [s1 a]. destruct (write_fails st id m); [eexists; reflexivity|].
+  { assert (Hw : forall id arg vis mf m ib ia, exists l0, snaps (write_step n st id arg vis mf m ib ia) = snaps st ++ l0).
+    { intros. unfold write_step.
+      destruct (alloc_arg (hs st) arg) as [s1 a]. destruct (write_fails st id m); [eexists; reflexivity|].
       destruct (match fget id (store st) with Some t => (s1, t, false) | None => let '(s', t) := halloc s1 Lib empty_node in (s', t, true) end) as [[s2 old] created].
-      destruct (clone n Lib s2 old) as [s3 dst]. destruct (publish_events _ _ _ _) as [s7 evs]. eexists; reflexivity.
+      destruct (clone n Lib s2 old) as [s3 dst]. destruct (publish_events _ _ _ _) as [s7 evs]. eexists; reflexivity. }
+    destruct o; simpl.
+    - apply Hw.
     - destruct (fget id (store st)); [destruct (publish_events _ _ _ _); eexists; reflexivity | exists []; rewrite app_nil_r; auto].
     - destruct (fget id (store st)); [destruct (filter_clone _ _ _ _); eexists; reflexivity | exists []; rewrite app_nil_r; auto].
     - destruct (smap _ _ _). eexists; reflexivity.
     - destruct updates_only; [exists []; rewrite app_nil_r; auto | destruct (smap _ _ _); eexists; reflexivity].
     - destruct (nth_error _ k); exists []; rewrite app_nil_r; auto.
-    - destruct (rf _ _). eexists; reflexivity. }
+    - destruct (rf _ _). eexists; reflexivity.
+    - apply Hw. }
   rewrite Hl, H0, <- app_assoc. eexists; reflexivity.
 Qed.
 
@@ -572,7 +583,7 @@ Definition is_read_op (o : op) : Prop :=
 Theorem reads_pure n st o : is_read_op o ->
   store (step n st o) = store st /\ only_allocs (hs st) (hs (step n st o)).
 Proof.
-  destruct o as [| |id rm|rm|rm uo hook| |rf]; simpl; try tauto; intros Hr.
+  destruct o as [| |id rm|rm|rm uo hook| |rf|]; simpl; try tauto; intros Hr.
   - destruct (fget id (store st)); [|split; [auto | apply oa_refl]].
     pose proof (filter_clone_oa n (hs st) t rm) as H. destruct (filter_clone n (hs st) t rm). simpl in *. auto.
   - pose proof (smap_oa (fun s p => filter_clone n s (snd p) rm) (fun s x => filter_clone_oa n s (snd x) rm) (store st) (hs st)) as H.
